@@ -276,7 +276,7 @@ int main(int argc, char** argv) {
                        "mass properties do not enter kinematics: generic mass only", "a body whose ancestor already failed the pose oracle is not reported again"};
     const int vs0 = (int)(((run.seed % 3) + 3) % 3);
     std::vector<int> valueSets = th ? std::vector<int>{0, 1, 2} : std::vector<int>{vs0};
-    mb::LevelA A; mb::LevelB B; mb::LevelC C;
+    mb::LevelA A; mb::LevelB B; mb::LevelC C; mb::LevelG G;
     auto kd = mb::kindDirs();
     auto section = [&](const std::string& name, int64_t nModels, std::function<std::vector<mb::BodySpec>(int64_t)> specsOf) {
         verif::Odometer od;
@@ -294,6 +294,7 @@ int main(int argc, char** argv) {
         });
     };
     section("S", (int64_t)kd.size() * 4, [&](int64_t i) { mb::BodySpec b; b.kind = kd[i / 4].first; b.dir = kd[i / 4].second; b.frames = (int)(i % 4); b.mass = 0; b.parent = -1; return std::vector<mb::BodySpec>{b}; });
+    section("G", G.size(), [&](int64_t i) { return G.specs(i, 0); });
     section("A", A.size(), [&](int64_t i) { return A.specs(i, 0); });
     section("B", B.size(), [&](int64_t i) { return B.specs(i, 0); });
     if (th) section("C", C.size(), [&](int64_t i) { return C.specs(i, 0); });
